@@ -19,7 +19,20 @@ Print Assumptions C10_no_comment_no_record.
    session rejected, has the input's tapes (anchors are atoms of the tape) and the input's records as a prefix *)
 Theorem C10_existing_kept : forall d author ts edits orc,
   let nd := normalize_doc d in
-  let '(d', _, _, _) := apply_edits d author ts edits orc in Rel (scan_ids nd) (next_comment_id nd) nd d'.
-Proof. intros d author ts edits orc. pose proof (engine_rel d author ts edits orc) as H. cbn zeta in *.
+  let '(d', _, _, _) := apply_edits d author ts edits orc in (wf_ids nd -> RelG (scan_ids nd) (next_comment_id nd) (d_next_uid nd) nd d').
+Proof. intros d author ts edits orc. pose proof (engine_contract d author ts edits orc) as H. cbn zeta in *.
   destruct (apply_edits d author ts edits orc) as [[[d' ap] sk] out]. exact (proj1 H). Qed.
 Print Assumptions C10_existing_kept.
+
+(* multi-line / heading new text: a commented block insertion adds exactly one record too - on the heading path track_insert
+   attaches it to the created paragraphs itself and hands no inline element back, otherwise it adds none and the caller
+   attaches the one comment to the inline w:ins it gets back *)
+Theorem C10_block_one_comment : forall e text anc cur c t sup,
+  let r := track_insert e text anc cur (c :: t) sup in
+  d_comments (e_doc (fst r)) = d_comments (e_doc e) ++
+    match snd r with
+    | Some _ => []
+    | None => [{| c_id := str_of_nat (e_next_c e); c_author := e_author e; c_date := e_ts e; c_text := c :: t; c_parent := None |}]
+    end.
+Proof. exact track_insert_one_comment. Qed.
+Print Assumptions C10_block_one_comment.
